@@ -186,7 +186,7 @@ def case_covariance(ctx, p):
             FR = F(ctx, hR, cell, key, spec, o.nsymop)
             phase = np.exp(-2j * math.pi * float(sum(int(h[a]) * t[a] for a in range(3))) / sx.DEN)
             err = abs(FR - F0 * phase)
-            mon.check("covariance:F(hR) = F(h) exp(-2 pi i h.t)", err <= tol, residual=err / scale, observed=FR, expected=F0 * phase,
+            mon.check("covariance:F(hR) = F(h) exp(-2 pi i h.t)", err <= tol, residual=err / scale, tol=tol / scale, observed=FR, expected=F0 * phase,
                       detail=None if err <= tol else {"group": key, "setting": o.cell_choice, "h": h, "hR": hR, "R": R, "adp": p["kind"],
                                                       "atoms": spec, "cell": cell, "R_is_symmetric": R == sx.transpose(R)})
             mon.check("covariance:|F(hR)| = |F(h)|", abs(abs(FR) - abs(F0)) <= tol, residual=abs(abs(FR) - abs(F0)) / scale)
